@@ -968,6 +968,11 @@ func (e *executor) prepareExprDependencies(
 		)
 	}
 	for _, dependency := range dependencies {
+		if len(dependency) < 2 {
+			// The expression refers to the root of the data model ("$") as a whole.
+			return fmt.Errorf("invalid dependency %s in expression %s: it must refer to the workflow input or to a step",
+				dependency.String(), expr.String())
+		}
 		dependencyKind := dependency[1]
 		switch dependencyKind {
 		case WorkflowInputKey:
